@@ -159,3 +159,503 @@ Proof.
       destruct Rel as (_ & _ & E). eapply B2; eauto. rewrite E, Hc. cbn.
       destruct (N.eqb_spec r' r); [congruence|reflexivity].
 Qed.
+
+(* ---- request ids: the ids waiting in the reader / the conn are consecutive and fresh ---- *)
+Definition pending_ids (s : st) : list N :=
+  match rd s with RHold r _ _ => [r] | _ => [] end ++ map (fun x => fst (fst x)) (inq s).
+Fixpoint iotaN (start : N) (n : nat) : list N :=
+  match n with O => [] | S n => start :: iotaN (start + 1) n end.
+Definition lo (s : st) : N := nsent s - N.of_nat (length (pending_ids s)).
+Definition pc_rids (s : st) : list N :=
+  match pc s with SendImm f => [f_rid f] | SendDone h f => [h; f_rid f] | _ => [] end.
+
+
+Definition IdsInv (s : st) : Prop :=
+  pending_ids s = iotaN (lo s) (length (pending_ids s)) /\ N.of_nat (length (pending_ids s)) <= nsent s.
+
+Lemma iotaN_snoc n : forall a, iotaN a (S n) = iotaN a n ++ [a + N.of_nat n].
+Proof.
+  induction n as [|n IH]; intros a.
+  - cbn. now rewrite N.add_0_r.
+  - change (iotaN a (S (S n))) with (a :: iotaN (a + 1) (S n)). rewrite IH. cbn [iotaN app].
+    f_equal. f_equal. f_equal. lia.
+Qed.
+
+Lemma ids_snoc l n : l = iotaN (n - N.of_nat (length l)) (length l) -> N.of_nat (length l) <= n ->
+  l ++ [n] = iotaN (n + 1 - N.of_nat (length (l ++ [n]))) (length (l ++ [n])) /\ N.of_nat (length (l ++ [n])) <= n + 1
+  /\ n + 1 - N.of_nat (length (l ++ [n])) = n - N.of_nat (length l).
+Proof.
+  intros E L. rewrite app_length. cbn [length]. rewrite Nat.add_1_r.
+  assert (E2 : n + 1 - N.of_nat (S (length l)) = n - N.of_nat (length l)) by lia.
+  rewrite E2, iotaN_snoc. repeat split; try lia.
+  rewrite <- E. f_equal. f_equal. lia.
+Qed.
+
+Lemma ids_tail l n r rest : l = r :: rest -> l = iotaN (n - N.of_nat (length l)) (length l) -> N.of_nat (length l) <= n ->
+  r = n - N.of_nat (length l) /\ rest = iotaN (n - N.of_nat (length rest)) (length rest) /\ N.of_nat (length rest) <= n
+  /\ n - N.of_nat (length rest) = n - N.of_nat (length l) + 1.
+Proof.
+  intros -> E L. cbn [length] in *. cbn [iotaN] in E. injection E as E1 E2.
+  assert (n - N.of_nat (length rest) = n - N.of_nat (S (length rest)) + 1) as -> by lia.
+  repeat split; try assumption; lia.
+Qed.
+
+
+(* how the next-to-be-received request id moves *)
+Lemma step_ids s e s' o : IdsInv s -> step R s e = Some (s', o) ->
+  IdsInv s' /\ (lo s' = lo s \/ (lo s' = lo s + 1 /\ exists tag k, rd s = RHold (lo s) tag k)).
+Proof.
+  intros [E L] H. unfold IdsInv, lo, pending_ids in *.
+  destruct e; step_inv H; proj_simpl.
+  all: try (split; [split; assumption|left; reflexivity]).
+  all: repeat match goal with
+       | Hc : cancel_rid _ _ = _ |- _ => rewrite (cancel_rid_frame _ _ _ _ Hc); clear Hc; proj_simpl
+       | Hc : cancel_list _ _ = _ |- _ => rewrite (cancel_list_frame _ _ _ _ Hc); clear Hc; proj_simpl
+       end.
+  all: try (split; [split; assumption|left; reflexivity]).
+  all: try match goal with Hr : rd _ = _ |- _ => rewrite Hr in * end.
+  all: repeat match goal with
+       | |- context [ [?x] ++ ?l ] => change ([x] ++ l) with (x :: l)
+       | |- context [ @nil ?A ++ ?l ] => change (@nil A ++ l) with l
+       | H : context [ [?x] ++ ?l ] |- _ => change ([x] ++ l) with (x :: l) in H
+       | H : context [ @nil ?A ++ ?l ] |- _ => change (@nil A ++ l) with l in H
+       end.
+  all: try match goal with Hi : inq _ = _ |- _ => rewrite Hi in *; cbn [app map fst] in * end.
+  all: try (split; [split; assumption|left; reflexivity]).
+  1: { (* ESend *)
+    apply andb_prop in Heqb as [Hrid _]. apply N.eqb_eq in Hrid. subst rid.
+    rewrite map_app, app_assoc. cbn [map fst].
+    destruct (ids_snoc _ _ E L) as (A & B & C). split; [split; assumption|left; exact C]. }
+  all: destruct (ids_tail _ _ _ _ eq_refl E L) as (A & B & C & D);
+    (split; [split; assumption|right]); (split; [exact D|]); do 2 eexists; rewrite <- A; reflexivity.
+Qed.
+
+(* ---- the core structural invariant: tag table, handlers, loop program counter ---- *)
+Lemma canc_rel_fwd rids m m' x h : canc_rel rids m m' -> m !! x = Some h ->
+  exists h', m' !! x = Some h' /\ h_tag h' = h_tag h /\ h_st h' = h_st h /\ h_canc h' = h_canc h || existsb (N.eqb x) rids.
+Proof. intros Rl E. specialize (Rl x). rewrite E in Rl. destruct (m' !! x) as [h'|]; [|contradiction]. eauto. Qed.
+
+Lemma canc_rel_bwd rids m m' x h' : canc_rel rids m m' -> m' !! x = Some h' ->
+  exists h, m !! x = Some h /\ h_tag h' = h_tag h /\ h_st h' = h_st h /\ h_canc h' = h_canc h || existsb (N.eqb x) rids.
+Proof. intros Rl E. specialize (Rl x). rewrite E in Rl. destruct (m !! x) as [h|]; [|contradiction]. eauto. Qed.
+
+Lemma canc_rel_none rids m m' x : canc_rel rids m m' -> m !! x = None -> m' !! x = None.
+Proof. intros Rl E. specialize (Rl x). rewrite E in Rl. destruct (m' !! x); [contradiction|reflexivity]. Qed.
+
+Lemma hold_lo s rid tag k : IdsInv s -> rd s = RHold rid tag k ->
+  rid = lo s /\ (forall s', inq s' = inq s -> nsent s' = nsent s -> (rd s' = RIdle \/ rd s' = RDead) -> lo s' = lo s + 1).
+Proof.
+  intros [E L] Hr. unfold lo, pending_ids in *. rewrite Hr in *.
+  change ([rid] ++ ?l) with (rid :: l) in *.
+  destruct (ids_tail _ _ _ _ eq_refl E L) as (A & B & C & D). split; [exact A|].
+  intros s' Hi Hn Hrd. rewrite Hi, Hn. destruct Hrd as [-> | ->]; exact D.
+Qed.
+
+Record Core (s : st) : Prop := {
+  c_hs_lo : forall rid, is_Some (hs s !! rid) -> rid < lo s;
+  c_pc_lo : forall r, In r (pc_rids s) -> r < lo s;
+  c_tags : forall t rid, tags s !! t = Some rid -> exists h, hs s !! rid = Some h /\ h_tag h = t;
+  c_live : forall rid h, hs s !! rid = Some h -> h_st h <> HGone -> h_canc h = false -> tags s !! h_tag h = Some rid;
+  c_done : forall hd f, pc s = SendDone hd f -> f_rid f = hd /\ tags s !! f_tag f = Some hd /\
+             exists h, hs s !! hd = Some h /\ h_tag h = f_tag f /\ h_st h = HGone;
+  c_imm : forall f, pc s = SendImm f -> hs s !! f_rid f = None
+}.
+
+Lemma Core_mono s s' : Core s -> tags s' = tags s -> hs s' = hs s -> pc s' = pc s -> lo s <= lo s' -> Core s'.
+Proof.
+  intros [A B C D E F] Ht Hh Hp Hl. constructor; unfold pc_rids in *; rewrite ?Ht, ?Hh, ?Hp.
+  - intros rid Hx. specialize (A rid Hx). lia.
+  - intros r Hx. specialize (B r Hx). lia.
+  - exact C.
+  - exact D.
+  - exact E.
+  - exact F.
+Qed.
+
+Lemma Core_init : Core init.
+Proof.
+  constructor; cbn; intros *.
+  - rewrite lookup_empty. intros [? ?]; discriminate.
+  - intros [].
+  - rewrite lookup_empty. discriminate.
+  - rewrite lookup_empty. discriminate.
+  - discriminate.
+  - discriminate.
+Qed.
+
+
+(* handlers only move forward: same tag, cancellation and HGone are permanent *)
+Definition hs_evolves (m m' : gmap N hrec) : Prop :=
+  forall x, match m !! x, m' !! x with
+            | Some h, Some h' => h_tag h' = h_tag h /\ (h_canc h = true -> h_canc h' = true) /\
+                                 (h_st h = HGone -> h_st h' = HGone)
+            | None, None => True
+            | _, _ => False
+            end.
+
+Lemma evolves_bwd m m' x h' : hs_evolves m m' -> m' !! x = Some h' ->
+  exists h, m !! x = Some h /\ h_tag h' = h_tag h /\ (h_canc h = true -> h_canc h' = true) /\ (h_st h = HGone -> h_st h' = HGone).
+Proof. intros E Hx. specialize (E x). rewrite Hx in E. destruct (m !! x); [eauto|contradiction]. Qed.
+Lemma evolves_fwd m m' x h : hs_evolves m m' -> m !! x = Some h ->
+  exists h', m' !! x = Some h' /\ h_tag h' = h_tag h /\ (h_canc h = true -> h_canc h' = true) /\ (h_st h = HGone -> h_st h' = HGone).
+Proof. intros E Hx. specialize (E x). rewrite Hx in E. destruct (m' !! x); [eauto|contradiction]. Qed.
+Lemma evolves_none m m' x : hs_evolves m m' -> m !! x = None -> m' !! x = None.
+Proof. intros E Hx. specialize (E x). rewrite Hx in E. destruct (m' !! x); [contradiction|reflexivity]. Qed.
+
+Lemma canc_rel_evolves rids m m' : canc_rel rids m m' -> hs_evolves m m'.
+Proof.
+  intros Rl x. specialize (Rl x). destruct (m !! x), (m' !! x); try tauto.
+  destruct Rl as (A & B & C). repeat split; [exact A| |congruence].
+  intros Hc. rewrite C, Hc. reflexivity.
+Qed.
+
+Lemma insert_evolves m rid h h' : m !! rid = Some h -> h_tag h' = h_tag h ->
+  (h_canc h = true -> h_canc h' = true) -> (h_st h = HGone -> h_st h' = HGone) -> hs_evolves m (<[rid := h']> m).
+Proof.
+  intros Hr A B C x. destruct (N.eq_dec x rid) as [->|Hne].
+  - rewrite Hr, lookup_insert. auto.
+  - rewrite lookup_insert_ne by congruence. destruct (m !! x); auto.
+Qed.
+
+Lemma Core_set_hs s m' : Core s -> hs_evolves (hs s) m' -> Core (set_hs s m').
+Proof.
+  intros [A B C D E F] Ev. constructor; unfold lo, pending_ids, pc_rids in *; proj_simpl.
+  - intros rid [h' Hx]. destruct (evolves_bwd _ _ _ _ Ev Hx) as (h & Hh & _). apply A. eauto.
+  - exact B.
+  - intros t rid Ht. destruct (C t rid Ht) as (h & Hh & Htag).
+    destruct (evolves_fwd _ _ _ _ Ev Hh) as (h' & Hh' & T & _). exists h'. split; [exact Hh'|congruence].
+  - intros rid h' Hx Hst Hc. destruct (evolves_bwd _ _ _ _ Ev Hx) as (h & Hh & T & Cc & G).
+    rewrite T. apply (D rid h Hh).
+    + intros Hg. apply Hst, G, Hg.
+    + destruct (h_canc h); [|reflexivity]. rewrite Cc in Hc by reflexivity. discriminate.
+  - intros hd f Hp. destruct (E hd f Hp) as (E1 & E2 & h & Hh & T & G).
+    destruct (evolves_fwd _ _ _ _ Ev Hh) as (h' & Hh' & T' & _ & G'). repeat split; try assumption.
+    exists h'. repeat split; [exact Hh'|congruence|auto].
+  - intros f Hp. eapply evolves_none; eauto.
+Qed.
+
+Definition rids_of_pc (p : pcT) : list N :=
+  match p with SendImm f => [f_rid f] | SendDone h f => [h; f_rid f] | _ => [] end.
+
+Lemma Core_set_pc s p : Core s -> (forall r, In r (rids_of_pc p) -> r < lo s) ->
+  (forall hd f, p = SendDone hd f -> f_rid f = hd /\ tags s !! f_tag f = Some hd /\
+       exists h, hs s !! hd = Some h /\ h_tag h = f_tag f /\ h_st h = HGone) ->
+  (forall f, p = SendImm f -> hs s !! f_rid f = None) -> Core (set_pc s p).
+Proof.
+  intros [A B C D E F] P1 P2 P3. constructor; unfold lo, pending_ids, pc_rids in *; proj_simpl; assumption.
+Qed.
+
+(* the loop hands over / drops a completed response: the tag is freed *)
+Lemma Core_untag s hd f : Core s -> pc s = SendDone hd f ->
+  Core (set_pc (set_tags s (delete (f_tag f) (tags s))) Main).
+Proof.
+  intros [A B C D E F] Hp. destruct (E hd f Hp) as (E1 & E2 & hh & Hh & T & G).
+  constructor; unfold lo, pending_ids, pc_rids in *; proj_simpl.
+  - exact A.
+  - intros r [].
+  - intros t rid Ht. apply lookup_delete_Some in Ht as [_ Ht]. eauto.
+  - intros rid h Hx Hst Hc. apply lookup_delete_Some. split; [|eauto].
+    intros Heq. pose proof (D rid h Hx Hst Hc) as Ht. rewrite <- Heq, E2 in Ht. injection Ht as ->. congruence.
+  - discriminate.
+  - discriminate.
+Qed.
+
+(* Tflush of an outstanding tag: entry removed, its handler cancelled *)
+Lemma Core_flush s old n m' : Core s -> pc s = Main -> tags s !! old = Some n -> canc_rel [n] (hs s) m' ->
+  Core (set_hs (set_tags s (delete old (tags s))) m').
+Proof.
+  intros [A B C D E F] Hp Ho Rl. pose proof (canc_rel_evolves _ _ _ Rl) as Ev.
+  constructor; unfold lo, pending_ids, pc_rids in *; proj_simpl.
+  - intros rid [h' Hx]. destruct (evolves_bwd _ _ _ _ Ev Hx) as (h & Hh & _). apply A. eauto.
+  - exact B.
+  - intros t rid Ht. apply lookup_delete_Some in Ht as [_ Ht]. destruct (C t rid Ht) as (h & Hh & Htag).
+    destruct (evolves_fwd _ _ _ _ Ev Hh) as (h' & Hh' & T & _). exists h'. split; [exact Hh'|congruence].
+  - intros rid h' Hx Hst Hc. destruct (canc_rel_bwd _ _ _ _ _ Rl Hx) as (h & Hh & T & S & Cc).
+    rewrite Hc in Cc. symmetry in Cc. apply orb_false_iff in Cc as [Cc1 Cc2].
+    cbn in Cc2. rewrite orb_false_r in Cc2. apply N.eqb_neq in Cc2.
+    rewrite T. apply lookup_delete_Some. rewrite S in Hst. pose proof (D rid h Hh Hst Cc1) as Ht.
+    split; [|exact Ht]. intros Heq. rewrite <- Heq, Ho in Ht. congruence.
+  - rewrite Hp. discriminate.
+  - rewrite Hp. discriminate.
+Qed.
+
+(* a request on a free tag is handed to a new handler goroutine *)
+Lemma Core_dispatch s rid tag c : Core s -> pc s = Main -> hs s !! rid = None -> rid < lo s -> tags s !! tag = None ->
+  Core (set_hs (set_tags s (<[tag := rid]> (tags s))) (<[rid := {| h_tag := tag; h_st := HRun; h_canc := c |}]> (hs s))).
+Proof.
+  intros [A B C D E F] Hp Hn Hlt Ht.
+  constructor; unfold lo, pending_ids, pc_rids in *; proj_simpl.
+  - intros x [h Hx]. apply lookup_insert_Some in Hx as [[<- _]|[_ Hx]]; [exact Hlt|apply A; eauto].
+  - exact B.
+  - intros t x Hx. apply lookup_insert_Some in Hx as [[<- <-]|[Hne Hx]].
+    + eexists. rewrite lookup_insert. split; reflexivity.
+    + destruct (C t x Hx) as (h & Hh & T). exists h. split; [|exact T].
+      rewrite lookup_insert_ne; [exact Hh|congruence].
+  - intros x h Hx Hst Hc. apply lookup_insert_Some in Hx as [[<- <-]|[Hne Hx]].
+    + cbn. apply lookup_insert.
+    + pose proof (D x h Hx Hst Hc) as Hh. rewrite lookup_insert_ne; [exact Hh|congruence].
+  - rewrite Hp. discriminate.
+  - rewrite Hp. discriminate.
+Qed.
+
+Lemma lo_frame s s' : inq s' = inq s -> nsent s' = nsent s -> rd s' = rd s -> lo s' = lo s.
+Proof. intros A B C. unfold lo, pending_ids. now rewrite A, B, C. Qed.
+
+Ltac lo_same := unfold lo, pending_ids; proj_simpl; reflexivity.
+
+Lemma step_Core s e s' o : IdsInv s -> Core s -> step R s e = Some (s', o) -> Core s'.
+Proof.
+  intros Iids I H.
+  destruct (step_ids _ _ _ _ Iids H) as [_ Hlo].
+  assert (Hle : lo s <= lo s') by (destruct Hlo as [->|[-> _]]; lia). clear Hlo.
+  destruct e; step_inv H; proj_simpl.
+  all: try (eapply Core_mono; [exact I|reflexivity|reflexivity|reflexivity|exact Hle]).
+  all: clear Hle.
+  - (* EFinish *)
+    apply Core_set_hs; [exact I|]. eapply insert_evolves; eauto; cbn; congruence.
+  - (* ECtxCancel *)
+    rewrite (cancel_list_frame _ _ _ _ Heqp). apply Core_set_hs.
+    + eapply Core_mono; [exact I|reflexivity..|]. assert (E : lo (set_ctxd s true) = lo s) by lo_same. lia.
+    + apply canc_rel_evolves with (rids := map fst (map_to_list (hs s))).
+      exact (cancel_list_rel _ _ _ _ Heqp).
+  - (* EArrive, duplicate tag *)
+    destruct (hold_lo _ _ _ _ Iids Heqr) as [-> Hl].
+    assert (E : lo (set_rd s RIdle) = lo s + 1) by (apply Hl; auto).
+    apply Core_set_pc.
+    + eapply Core_mono; [exact I|reflexivity..|]. lia.
+    + cbn. intros r [<-|[]]. lia.
+    + discriminate.
+    + intros f [= <-]. cbn. destruct (hs s !! lo s) eqn:Hx; [|reflexivity].
+      assert (lo s < lo s) by (apply (c_hs_lo _ I); eauto). lia.
+  - (* EArrive, dispatch (ctx already done) *)
+    destruct (hold_lo _ _ _ _ Iids Heqr) as [-> Hl].
+    assert (E : lo (set_rd s RIdle) = lo s + 1) by (apply Hl; auto).
+    apply (Core_dispatch (set_rd s RIdle)); proj_simpl; try assumption.
+    + eapply Core_mono; [exact I|reflexivity..|]. lia.
+    + destruct (hs s !! lo s) eqn:Hx; [|reflexivity].
+      assert (lo s < lo s) by (apply (c_hs_lo _ I); eauto). lia.
+    + lia.
+  - destruct (hold_lo _ _ _ _ Iids Heqr) as [-> Hl].
+    assert (E : lo (set_rd s RIdle) = lo s + 1) by (apply Hl; auto).
+    apply (Core_dispatch (set_rd s RIdle)); proj_simpl; try assumption.
+    + eapply Core_mono; [exact I|reflexivity..|]. lia.
+    + destruct (hs s !! lo s) eqn:Hx; [|reflexivity].
+      assert (lo s < lo s) by (apply (c_hs_lo _ I); eauto). lia.
+    + lia.
+  - (* EArrive, flush of an outstanding tag *)
+    destruct (hold_lo _ _ _ _ Iids Heqr) as [-> Hl].
+    assert (E : lo (set_rd s RIdle) = lo s + 1) by (apply Hl; auto).
+    pose proof (cancel_rid_rel _ _ _ _ Heqp0) as Rl. proj_simpl.
+    rewrite (cancel_rid_frame _ _ _ _ Heqp0).
+    assert (C1 : Core (set_hs (set_tags (set_rd s RIdle) (delete old (tags s))) (hs s0))).
+    { apply (Core_flush (set_rd s RIdle) old n); proj_simpl; try assumption.
+      eapply Core_mono; [exact I|reflexivity..|]. lia. }
+    apply Core_set_pc; [exact C1| | |].
+    + cbn. intros r [<-|[]].
+      assert (E2 : lo (set_hs (set_tags (set_rd s RIdle) (delete old (tags s))) (hs s0)) = lo (set_rd s RIdle)) by lo_same.
+      lia.
+    + discriminate.
+    + intros f [= <-]. cbn. eapply evolves_none; [exact (canc_rel_evolves _ _ _ Rl)|].
+      destruct (hs s !! lo s) eqn:Hx; [|reflexivity].
+      assert (lo s < lo s) by (apply (c_hs_lo _ I); eauto). lia.
+  - (* EArrive, flush of an unknown tag *)
+    destruct (hold_lo _ _ _ _ Iids Heqr) as [-> Hl].
+    assert (E : lo (set_rd s RIdle) = lo s + 1) by (apply Hl; auto).
+    apply Core_set_pc.
+    + eapply Core_mono; [exact I|reflexivity..|]. lia.
+    + cbn. intros r [<-|[]]. lia.
+    + discriminate.
+    + intros f [= <-]. cbn. destruct (hs s !! lo s) eqn:Hx; [|reflexivity].
+      assert (lo s < lo s) by (apply (c_hs_lo _ I); eauto). lia.
+  - (* EComplete, still the holder *)
+    apply N.eqb_eq in Heqb. subst n.
+    assert (C1 : Core (set_hs s (<[rid:={| h_tag := h_tag h; h_st := HGone; h_canc := h_canc h |}]> (hs s)))).
+    { apply Core_set_hs; [exact I|]. eapply insert_evolves; eauto. }
+    apply Core_set_pc; [exact C1| | |]; proj_simpl.
+    + cbn. intros x Hr. assert (x = rid) as -> by (destruct Hr as [<-|[<-|[]]]; reflexivity).
+      assert (E2 : lo (set_hs s (<[rid:={| h_tag := h_tag h; h_st := HGone; h_canc := h_canc h |}]> (hs s))) = lo s) by lo_same.
+      rewrite E2. apply (c_hs_lo _ I). eauto.
+    + intros hd f [= <- <-]. cbn. repeat split; [exact Heqo1|].
+      eexists. rewrite lookup_insert. repeat split.
+    + discriminate.
+  - (* EComplete, no longer the holder *)
+    apply Core_set_hs; [exact I|]. eapply insert_evolves; eauto.
+  - apply Core_set_hs; [exact I|]. eapply insert_evolves; eauto.
+  - (* EGiveUp *)
+    apply Core_set_hs; [exact I|]. eapply insert_evolves; eauto.
+  - (* ETake *)
+    eapply (Core_mono (set_pc s Main)); [|reflexivity..|assert (E : lo (set_pc s Main) = lo s) by lo_same; unfold lo, pending_ids in *; proj_simpl; lia].
+    apply Core_set_pc; [exact I|intros r []|discriminate|discriminate].
+  - eapply (Core_mono (set_pc s Main)); [|reflexivity..|unfold lo, pending_ids in *; proj_simpl; lia].
+    apply Core_set_pc; [exact I|intros r []|discriminate|discriminate].
+  - eapply (Core_mono (set_pc (set_tags s (delete (f_tag f) (tags s))) Main)); [|reflexivity..|unfold lo, pending_ids in *; proj_simpl; lia].
+    eapply Core_untag; eauto.
+  - eapply (Core_mono (set_pc (set_tags s (delete (f_tag f) (tags s))) Main)); [|reflexivity..|unfold lo, pending_ids in *; proj_simpl; lia].
+    eapply Core_untag; eauto.
+  - (* EDropDone *)
+    eapply Core_untag; eauto.
+  - (* EReturn *)
+    rewrite (cancel_list_frame _ _ _ _ Heqp). apply Core_set_hs.
+    + apply Core_set_pc; [exact I|intros r []|discriminate|discriminate].
+    + eapply canc_rel_evolves. exact (cancel_list_rel _ _ _ _ Heqp).
+Qed.
+
+(* ---- cancellation at shutdown, Stop ---- *)
+Record Life (s : st) : Prop := {
+  l_ctx : ctxd s = true -> forall rid h, hs s !! rid = Some h -> h_canc h = true;
+  l_ret : pc s = PReturned -> forall rid h, hs s !! rid = Some h -> h_st h <> HGone -> h_canc h = true;
+  l_stop : stops s = 0 \/ (stops s = 1 /\ pc s = PReturned /\ forall rid h, hs s !! rid = Some h -> h_st h = HGone)
+}.
+
+Lemma Life_init : Life init.
+Proof. constructor; cbn; try discriminate. now left. Qed.
+
+Lemma Life_mono s s' : Life s -> hs s' = hs s -> pc s' = pc s -> (ctxd s' = true -> ctxd s = true) -> stops s' = stops s -> Life s'.
+Proof.
+  intros [A B C] Hh Hp Hc Hs. constructor; rewrite ?Hh, ?Hp, ?Hs.
+  - intros H. apply A, Hc, H.
+  - exact B.
+  - exact C.
+Qed.
+
+Lemma Life_set_hs s m' : Life s -> hs_evolves (hs s) m' -> Life (set_hs s m').
+Proof.
+  intros [A B C] Ev. constructor; proj_simpl.
+  - intros Hc rid h' Hx. destruct (evolves_bwd _ _ _ _ Ev Hx) as (h & Hh & _ & Cc & _). eauto.
+  - intros Hp rid h' Hx Hst. destruct (evolves_bwd _ _ _ _ Ev Hx) as (h & Hh & _ & Cc & G).
+    apply Cc. eapply B; eauto.
+  - destruct C as [C|(C1 & C2 & C3)]; [now left|right]. repeat split; try assumption.
+    intros rid h' Hx. destruct (evolves_bwd _ _ _ _ Ev Hx) as (h & Hh & _ & _ & G). eauto.
+Qed.
+
+Lemma Life_set_pc s p : Life s -> pc s <> PReturned -> p <> PReturned -> Life (set_pc s p).
+Proof.
+  intros [A B C] H1 H2. constructor; proj_simpl; try assumption.
+  - intros ->. congruence.
+  - destruct C as [C|(C1 & C2 & C3)]; [now left|congruence].
+Qed.
+
+Lemma existsb_eqb_in x l : In x l -> existsb (N.eqb x) l = true.
+Proof. intros H. apply existsb_exists. exists x. split; [exact H|apply N.eqb_refl]. Qed.
+
+Lemma in_keys (m : gmap N hrec) x h : m !! x = Some h -> In x (map fst (map_to_list m)).
+Proof.
+  intros H. apply in_map_iff. exists (x, h). split; [reflexivity|].
+  apply elem_of_list_In, elem_of_map_to_list, H.
+Qed.
+
+Lemma in_vals (m : gmap N N) t x : m !! t = Some x -> In x (map snd (map_to_list m)).
+Proof.
+  intros H. apply in_map_iff. exists (t, x). split; [reflexivity|].
+  apply elem_of_list_In, elem_of_map_to_list, H.
+Qed.
+
+Lemma all_gone_spec s : all_gone s = true -> forall rid h, hs s !! rid = Some h -> h_st h = HGone.
+Proof.
+  unfold all_gone. intros H rid h Hx. rewrite forallb_forall in H.
+  specialize (H (rid, h)). cbn in H. destruct (h_st h); try reflexivity; exfalso;
+    (assert (false = true) by (apply H, elem_of_list_In, elem_of_map_to_list, Hx); discriminate).
+Qed.
+
+Lemma all_gone_intro s : (forall rid h, hs s !! rid = Some h -> h_st h = HGone) -> all_gone s = true.
+Proof.
+  intros H. unfold all_gone. apply forallb_forall. intros [rid h] Hin. cbn.
+  apply elem_of_list_In, elem_of_map_to_list in Hin. now rewrite (H _ _ Hin).
+Qed.
+
+
+Lemma Life_stops0 s : Life s -> pc s <> PReturned -> stops s = 0.
+Proof. intros [_ _ [C|(_ & C & _)]] H; [exact C|congruence]. Qed.
+
+Lemma step_Life s e s' o : Core s -> Life s -> step R s e = Some (s', o) -> Life s'.
+Proof.
+  intros Ic I H.
+  destruct e; step_inv H; proj_simpl.
+  all: try (eapply Life_mono; [exact I|reflexivity|reflexivity|proj_simpl; auto|reflexivity]).
+  - (* EFinish *)
+    apply Life_set_hs; [exact I|]. eapply insert_evolves; eauto; cbn; congruence.
+  - (* ECtxCancel *)
+    pose proof (cancel_list_rel _ _ _ _ Heqp) as Rl. proj_simpl.
+    rewrite (cancel_list_frame _ _ _ _ Heqp). destruct I as [A B C]. constructor; proj_simpl.
+    + intros _ rid h' Hx. destruct (canc_rel_bwd _ _ _ _ _ Rl Hx) as (h & Hh & _ & _ & Cc).
+      rewrite Cc, (existsb_eqb_in _ _ (in_keys _ _ _ Hh)). apply orb_true_r.
+    + intros Hp rid h' Hx Hst. destruct (canc_rel_bwd _ _ _ _ _ Rl Hx) as (h & Hh & _ & S & Cc).
+      rewrite Cc, (B Hp rid h Hh); [reflexivity|congruence].
+    + destruct C as [C|(C1 & C2 & C3)]; [now left|right]. repeat split; try assumption.
+      intros rid h' Hx. destruct (canc_rel_bwd _ _ _ _ _ Rl Hx) as (h & Hh & _ & S & _). rewrite S. eauto.
+  - (* EArrive dup *)
+    apply Life_set_pc; proj_simpl; [|congruence|discriminate].
+    eapply Life_mono; [exact I|reflexivity..|auto|reflexivity].
+  - (* dispatch *)
+    destruct I as [A B C]. constructor; proj_simpl.
+    + intros _ x h Hx. apply lookup_insert_Some in Hx as [[_ <-]|[_ Hx]]; [reflexivity|eauto].
+    + rewrite Heqp. discriminate.
+    + destruct C as [C|(_ & C & _)]; [now left|congruence].
+  - destruct I as [A B C]. constructor; proj_simpl.
+    + congruence.
+    + rewrite Heqp. discriminate.
+    + destruct C as [C|(_ & C & _)]; [now left|congruence].
+  - (* flush of an outstanding tag *)
+    pose proof (cancel_rid_rel _ _ _ _ Heqp0) as Rl. proj_simpl.
+    rewrite (cancel_rid_frame _ _ _ _ Heqp0).
+    apply Life_set_pc; proj_simpl; [|congruence|discriminate].
+    apply Life_set_hs; [|exact (canc_rel_evolves _ _ _ Rl)].
+    eapply Life_mono; [exact I|reflexivity..|auto|reflexivity].
+  - (* flush of an unknown tag *)
+    apply Life_set_pc; proj_simpl; [|congruence|discriminate].
+    eapply Life_mono; [exact I|reflexivity..|auto|reflexivity].
+  - (* EComplete *)
+    apply Life_set_pc; proj_simpl; [|congruence|discriminate].
+    apply Life_set_hs; [exact I|]. eapply insert_evolves; eauto.
+  - apply Life_set_hs; [exact I|]. eapply insert_evolves; eauto.
+  - apply Life_set_hs; [exact I|]. eapply insert_evolves; eauto.
+  - (* EGiveUp *)
+    apply Life_set_hs; [exact I|]. eapply insert_evolves; eauto.
+  - (* ETake *)
+    eapply (Life_mono (set_pc s Main)); [|reflexivity..|auto|reflexivity].
+    apply Life_set_pc; [exact I|congruence|discriminate].
+  - eapply (Life_mono (set_pc s Main)); [|reflexivity..|auto|reflexivity].
+    apply Life_set_pc; [exact I|congruence|discriminate].
+  - eapply (Life_mono (set_pc s Main)); [|reflexivity..|auto|reflexivity].
+    apply Life_set_pc; [exact I|congruence|discriminate].
+  - eapply (Life_mono (set_pc s Main)); [|reflexivity..|auto|reflexivity].
+    apply Life_set_pc; [exact I|congruence|discriminate].
+  - (* EDropDone *)
+    eapply (Life_mono (set_pc s Main)); [|reflexivity..|auto|reflexivity].
+    apply Life_set_pc; [exact I|congruence|discriminate].
+  - (* EReturn *)
+    pose proof (cancel_list_rel _ _ _ _ Heqp) as Rl. proj_simpl.
+    apply andb_prop in Heqb as [Hpc _].
+    assert (Hnr : pc s <> PReturned) by (intros E; rewrite E in Hpc; discriminate).
+    pose proof (Life_stops0 _ I Hnr) as Hs0.
+    rewrite (cancel_list_frame _ _ _ _ Heqp). destruct I as [A B C]. constructor; proj_simpl.
+    + intros Hc rid h' Hx. destruct (canc_rel_bwd _ _ _ _ _ Rl Hx) as (h & Hh & _ & _ & Cc).
+      rewrite Cc, (A Hc rid h Hh). reflexivity.
+    + intros _ rid h' Hx Hst. destruct (canc_rel_bwd _ _ _ _ _ Rl Hx) as (h & Hh & _ & S & Cc).
+      rewrite Cc. destruct (h_canc h) eqn:Hc; [reflexivity|]. cbn.
+      apply existsb_eqb_in. eapply in_vals. apply (c_live _ Ic rid h Hh); [congruence|exact Hc].
+    + now left.
+  - (* EStop *)
+    apply andb_prop in Heqb as [_ Hg]. destruct I as [A B C]. constructor; proj_simpl; try assumption.
+    right. repeat split; try assumption. apply all_gone_spec, Hg.
+Qed.
+
+(* ---- all state invariants together ---- *)
+Record SInv (s : st) : Prop := { si_ids : IdsInv s; si_core : Core s; si_life : Life s }.
+
+Lemma SInv_init : SInv init.
+Proof.
+  constructor; [|apply Core_init|apply Life_init].
+  split; cbn; [reflexivity|lia].
+Qed.
+
+Lemma step_SInv s e s' o : SInv s -> step R s e = Some (s', o) -> SInv s'.
+Proof.
+  intros [A B C] H. constructor.
+  - exact (proj1 (step_ids _ _ _ _ A H)).
+  - eapply step_Core; eauto.
+  - eapply step_Life; eauto.
+Qed.
+
+Lemma reach_SInv s tr : reach s tr -> SInv s.
+Proof. induction 1; [apply SInv_init|eapply step_SInv; eauto]. Qed.
